@@ -163,8 +163,11 @@ def run(ctx):
             if sentinel is None:
                 ops0 = life.content_ops(tmpdir)
                 for k in ('save', 'save_images'): ops0.pop(k)
-                sentinel = (data, True, True, {n: v for n, (v, _u) in life.fresh_values('content', data, ops0, True, True).items()})
-                new_process_history(ctx, sentinel, tmpdir)
+                fv = {n: v for n, (v, _u) in life.fresh_values('content', data, ops0, True, True).items()}
+                # the sentinel must be a document that reads normally and has text (a probe that raises everywhere shows nothing)
+                if all(v.startswith('v:') for v in fv.values()) and fv['text'] != 'v:' + life.vhash(''):
+                    sentinel = (data, True, True, fv)
+                    new_process_history(ctx, sentinel, tmpdir)
             elif ctx.evaluations % 3 == 0 or not ctx.quick:
                 other_documents(ctx, sentinel, tmpdir, [data, odd_prefixes(data), odd_prefixes(sentinel[0])])
             if ctx.evaluations % 50 < 14: ctx.sample({'reads': seqs[0]})
